@@ -96,7 +96,8 @@ def catalog(pid, tier):
         q = (trio("int_pair_w2", "pair", 34) + trio("int_indep2_w1", "indep2", 30, W=1)[:1]
              + trio("int_indep2_w1_donefirst", "indep2", 30, {"done_first": True}, W=1)[:1])
         t = (trio("int_pair_w2", "pair", 34) + trio("int_indep2_w2", "indep2", 34) + trio("int_indep2_w2_donefirst", "indep2", 34, {"done_first": True})
-             + trio("int_join3_w2", "join3", 40) + trio("int_sym2_w2", None, 34, sym=True, N=2))
+             + trio("int_join3_w1", "join3", 36, W=1) + trio("int_sym2_w2", None, 34, sym=True, N=2))
+        # (the two-worker join under interrupts, int_join3_w2, does not reach a verdict within the 3600 s instance limit: dropped, stated in DESIGN 11.12)
     out = q if tier == "quick" else t
     if pid == "C10":
         for s in out:
